@@ -352,9 +352,9 @@ theorem lowerE_mono : ∀ (e : Expr) (c : Nat) (code : Code) (v : Value) (c' : N
     exact ⟨by omega, trivial⟩
   | .record fs, c, code, v, c', h => by
     simp [lowerE, Option.bind_eq_some_iff] at h
-    obtain ⟨cf, c1, h1, _, rfl, rfl⟩ := h
-    have m1 := lowerFields_mono fs _ _ _ cf c1 h1
-    exact ⟨by omega, ⟨c, rfl, by omega⟩⟩
+    obtain ⟨ca, xs, c1, h1, _, rfl, rfl⟩ := h
+    have ⟨m1, _⟩ := lowerCtorArgs_mono fs c ca xs c1 h1
+    exact ⟨by omega, ⟨c1, rfl, by omega⟩⟩
   | .field e i, c, code, v, c', h => by
     by_cases hv : ∃ x, e = .var x
     · obtain ⟨x, rfl⟩ := hv
@@ -479,15 +479,6 @@ theorem lowerArms_mono : ∀ (arms : Arms) (out : Var) (c : Nat) (codes : List C
     obtain ⟨cb, xb, c1, h1, cs, h2, _⟩ := h
     have ⟨m1, _⟩ := lowerBlock_mono body c cb xb c1 h1
     have := lowerArms_mono rest out c1 cs c' h2
-    omega
-theorem lowerFields_mono : ∀ (es : Exprs) (to : Var) (i c : Nat) (code : Code) (c' : Nat),
-    lowerFields es to i c = some (code, c') → c ≤ c'
-  | .nil, to, i, c, code, c', h => by simp [lowerFields] at h; omega
-  | .cons e es, to, i, c, code, c', h => by
-    simp [lowerFields, Option.bind_eq_some_iff] at h
-    obtain ⟨ce, ve, c1, h1, cs, h2, _⟩ := h
-    have ⟨m1, _⟩ := lowerE_mono e c ce ve c1 h1
-    have m2 := lowerFields_mono es to (i + 1) c1 cs c' h2
     omega
 theorem lowerArgs_mono : ∀ (es : Exprs) (c : Nat) (code : Code) (tmps : List Var) (c' : Nat),
     lowerArgs es c = some (code, tmps, c') → c ≤ c' ∧ ∀ x ∈ tmps, ∃ k, x = .t k ∧ c ≤ k ∧ k < c'
@@ -713,7 +704,7 @@ theorem lowerE_valueBound (e : Expr) (c : Nat) (code : Code) (v : Value) (c' : N
   | record fs =>
     have hm := (lowerE_mono _ c code v c' h).2
     simp [lowerE, Option.bind_eq_some_iff] at h
-    obtain ⟨_, _, _, _, rfl, _⟩ := h
+    obtain ⟨_, _, _, _, _, rfl, _⟩ := h
     obtain ⟨k', hk', hlt⟩ := hm; cases hk'; simp [Value.vars] at hk; omega
   | field e1 i =>
     by_cases hv : ∃ x, e1 = .var x
@@ -855,6 +846,36 @@ theorem exec_storeFields {P : Prog} {k : Nat} {to : Var} : ∀ (xs : List Var) (
       have := ExecC.cons s1 hx1
       simpa [storeFields] using this
 
+/-- `record`: moving the materialised fields into the record, which is filled front to back -/
+theorem exec_storeFieldsR {P : Prog} {to : Var} : ∀ (xs : List Var) (fs : List Int) (pre : List Int) (σ : Store),
+    σ to = .recd pre → (∀ x ∈ xs, x ≠ to) → xs.map σ = fs.map Val.int →
+    ∃ σ1, ExecC P σ (storeFields to pre.length xs) [] (.normal σ1) ∧ σ1 to = .recd (pre ++ fs)
+      ∧ (∀ y, y ≠ to → σ1 y = σ y)
+  | [], fs, pre, σ, hσ, _, hm => by
+    cases fs with
+    | nil => exact ⟨σ, .nil, by simpa using hσ, fun _ _ => rfl⟩
+    | cons f fs => simp at hm
+  | x :: xs, fs, pre, σ, hσ, hne, hm => by
+    cases fs with
+    | nil => simp at hm
+    | cons f fs =>
+      simp only [List.map_cons, List.cons.injEq] at hm
+      obtain ⟨hx, hm'⟩ := hm
+      have hset : setPayload (σ to) pre.length f = some (.recd (pre ++ [f])) := by
+        rw [hσ]; simp [setPayload]
+      have s1 : ExecS P σ (.assignField to pre.length (.move x)) [] (.normal (σ.set to (.recd (pre ++ [f])))) :=
+        .assignField (EvalV.pure (by simp [evalValue, hx])) hset
+      have hmap : xs.map (σ.set to (.recd (pre ++ [f]))) = fs.map Val.int := by
+        rw [← hm']
+        apply List.map_congr_left
+        intro y hy
+        exact set_other _ _ (hne y (by simp [hy]))
+      obtain ⟨σ1, hx1, hv1, hk1⟩ := exec_storeFieldsR (P := P) (to := to) xs fs (pre ++ [f]) (σ.set to (.recd (pre ++ [f])))
+        (by simp) (fun y hy => hne y (by simp [hy])) hmap
+      refine ⟨σ1, ?_, by simpa using hv1, fun y hy => by rw [hk1 y hy, set_other _ _ hy]⟩
+      have := ExecC.cons s1 hx1
+      simpa [storeFields] using this
+
 /-! ### lists -/
 
 /-- the discriminant `List.get` hands back: `Some` = 0, `None` = 1 -/
@@ -943,8 +964,9 @@ theorem lowerE_moveLower (e : Expr) (c : Nat) (code : Code) (x : Var) (c' : Nat)
     exact ⟨c1, rfl, m1⟩
   | record fs =>
     simp [lowerE, Option.bind_eq_some_iff] at h
-    obtain ⟨_, _, _, _, rfl, _⟩ := h
-    exact ⟨c, rfl, Nat.le_refl _⟩
+    obtain ⟨ca, xs, c1, h1, _, rfl, _⟩ := h
+    have ⟨m1, _⟩ := lowerCtorArgs_mono fs c ca xs c1 h1
+    exact ⟨c1, rfl, m1⟩
   | list es =>
     simp [lowerE, Option.bind_eq_some_iff] at h
     obtain ⟨_, _, _, _, rfl, _⟩ := h
